@@ -176,6 +176,15 @@ func (q sequence) String() string {
 	return strings.Join(parts, "; ")
 }
 
+// id is a compact identity of the history.
+func (q sequence) id() string {
+	b := make([]byte, 0, len(q)*8)
+	for _, s := range q {
+		b = append(b, s.Op, byte(s.Class), byte(s.Args[0]), byte(s.Args[1]), byte(s.Form), byte(s.Inst), byte(s.Member), byte(s.Val))
+	}
+	return string(b)
+}
+
 // instStep returns the step that creates instance number n (creation order).
 func (q sequence) instStep(n int) (int, step) {
 	k := 0
